@@ -257,8 +257,12 @@ package modules
 //@   at call (*ModuleError).Report ghost reported = true
 //@   at call (*AtomicBool).UnSet ghost unset = true
 //@   at call (*AtomicBool).UnSet assert arg0 == m.ctrlFuncRunning
+// the result (the routine's error, or the panic turned into one) is on the channel BEFORE the end of
+// the routine is signalled: the stop sequence looks for it, without blocking, as soon as the
+// completion channel is closed - a result sent later is lost and the pass returns without error
+//@   at call (*AtomicBool).UnSet assert sent == 1
 //@   ghost var chk int = 0
-//@   at call (*Module).checkIfStopComplete assert unset && arg0 == m
+//@   at call (*Module).checkIfStopComplete assert unset && arg0 == m && sent == 1
 //@   at call (*Module).checkIfStopComplete ghost chk = chk + 1
 //@   ensures sent == 1 && unset && chk == 1
 //@   ensures panicked ==> sentNonNil && reported
